@@ -586,7 +586,12 @@ pub fn nested_entry_value(depth: usize) -> Vec<u8> {
 
 /// a one-unit DWARF 4 image whose line program header has the given line_base / line_range
 pub fn assembled_line_unit_with(lb: i8, lr: u8, prog: &[u8]) -> Vec<(String, Vec<u8>)> {
-    let mut hdr_rest = vec![1u8, 1, 1, lb as u8, lr, 13];
+    assembled_line_unit_mil(1, lb, lr, prog)
+}
+
+/// the same with a given minimum_instruction_length
+pub fn assembled_line_unit_mil(mil: u8, lb: i8, lr: u8, prog: &[u8]) -> Vec<(String, Vec<u8>)> {
+    let mut hdr_rest = vec![mil, 1, 1, lb as u8, lr, 13];
     hdr_rest.extend_from_slice(&[0, 1, 1, 1, 1, 0, 0, 0, 1, 0, 0, 1]);
     hdr_rest.extend_from_slice(b"inc\0");
     hdr_rest.push(0);
